@@ -196,6 +196,34 @@ class Pool:
         if M[metas[0] % len(M)] != M[metas[1] % len(M)]:
             self.st.nt()
 
+    def s_dicts(self, idx, k, dask_too):
+        """a decorated signal_transform given caller-owned signal_kwargs / dask_kwargs dicts: the dicts are arguments like any other"""
+        import pulsarbat as pb
+
+        z = self.pick(idx)
+        if z.data.dtype.kind not in "fc":
+            return
+        sk, dk = {"meta": {"note": [1, 2]}}, {"meta": np.empty((0,) * z.ndim, dtype=z.data.dtype)} if k % 2 else {}
+        sk0, dk0 = copy.deepcopy(sk), {a: (v.copy() if isinstance(v, np.ndarray) else v) for a, v in dk.items()}
+        t = pb.signal_transform(C._affine)
+        try:
+            target = z.to_dask_array() if dask_too else z
+            r = t(target, k=float(1 + k % 3), b=0.5, signal_kwargs=sk, dask_kwargs=dk)
+            r2 = t(target, signal_kwargs=sk, dask_kwargs=dk)  # a second call with fewer keywords, same dicts
+            if dask_too:
+                got, want = np.asarray(r2.data), np.asarray(z.data) * 1.0 + 0.0
+                check(np.array_equal(got, want, equal_nan=True), "a second call of the same decorated transform without keywords did not use the "
+                      "function's defaults (keywords of the first call leaked through the dicts)")
+            self.add(r, "signal_transform(dicts)")
+            self.st.label("op_transform_dicts")
+        except Violation:
+            raise
+        except Exception:
+            self.st.label("raised_transform_dicts")
+        check(sk == sk0, "signal_transform modified the signal_kwargs dict it was given: {} -> {}", sk0, sk)
+        check(set(dk) == set(dk0), "signal_transform modified the dask_kwargs dict it was given: keys {} -> {}", sorted(dk0), sorted(dk))
+        self.st.nt()
+
     def s_bad(self, idx, kind):
         import pulsarbat as pb
 
@@ -256,6 +284,10 @@ class PoolMachine(HistoryMachine):
     @rule(idx=st.integers(0, 20))
     def reuse(self, idx):
         self.do(["reuse", idx])
+
+    @rule(idx=st.integers(0, 20), k=st.integers(0, 30), dask_too=st.booleans())
+    def dicts(self, idx, k, dask_too):
+        self.do(["dicts", idx, k, dask_too])
 
     @rule(idx=st.integers(0, 20), k=st.integers(0, 30), metas=st.tuples(st.integers(0, 4), st.integers(0, 4)), drop=st.booleans())
     def join(self, idx, k, metas, drop):
